@@ -87,6 +87,7 @@ func c08scenario(c c08cfg) *explore.Scenario {
 		finalCount := -1
 		var tail []readRes
 		closed := false
+		deadlineChanged := false
 		var dlSet time.Duration // virtual instant of the deadline in force (0 = none)
 		body := func() {
 			b = packetio.NewBuffer()
@@ -147,6 +148,20 @@ func c08scenario(c c08cfg) *explore.Scenario {
 					dlSet = dl.Sub(zzvsched.Base)
 					_ = b.SetReadDeadline(dl)
 				})
+			case "past-then-future", "future-zero-future":
+				// the deadline is changed several times while the reader waits; the last one counts
+				zzvsched.GoNamed("srd", func() {
+					if c.deadline == "past-then-future" {
+						_ = b.SetReadDeadline(zzvsched.Base.Add(1))
+						deadlineChanged = true
+					} else {
+						_ = b.SetReadDeadline(zzvsched.Now().Add(time.Hour))
+						_ = b.SetReadDeadline(time.Time{})
+					}
+					dl := zzvsched.Now().Add(10 * time.Millisecond)
+					dlSet = dl.Sub(zzvsched.Base)
+					_ = b.SetReadDeadline(dl)
+				})
 			}
 			zzvsched.SleepIdle(50 * time.Millisecond)
 			finalCount = b.Count()
@@ -180,7 +195,7 @@ func c08scenario(c c08cfg) *explore.Scenario {
 					if dlSet == 0 && c.deadline == "" {
 						return "", &explore.Violation{Msg: fmt.Sprintf("reader %d timed out although no deadline was ever set", i), Sig: "C08 spurious-timeout"}
 					}
-					if c.deadline == "future" && r.at < dlSet {
+					if (c.deadline == "future" || c.deadline == "future-zero-future" || (c.deadline == "past-then-future" && !deadlineChanged)) && r.at < dlSet {
 						return "", &explore.Violation{Msg: fmt.Sprintf("reader %d timed out at %v before the deadline %v", i, r.at, dlSet), Sig: "C08 early-timeout"}
 					}
 				case "eof":
@@ -278,6 +293,8 @@ func init() {
 					// the ring wraps while two readers wait: head/tail in every relative order
 					{readers: 2, writers: 1, script: []int{1500, 10, 0, 1000}, bound: 1},
 					{readers: 2, writers: 1, script: []int{2000, 30, 0, 40, 0, 1990}, bound: 1},
+					{readers: 1, writers: 0, deadline: "past-then-future", bound: 2},
+					{readers: 1, writers: 0, deadline: "future-zero-future", bound: 2},
 				}
 			} else {
 				cfgs = []c08cfg{
@@ -291,6 +308,8 @@ func init() {
 					{readers: 2, writers: 1, script: []int{1500, 10, 0, 1000}, bound: 2},
 					{readers: 2, writers: 1, script: []int{2000, 30, 0, 40, 0, 1990}, bound: 2},
 					{readers: 3, writers: 1, script: []int{1500, 10, 500, 0, 0, 1000}, bound: 2},
+					{readers: 2, writers: 1, perWriter: 1, deadline: "past-then-future", bound: 3},
+					{readers: 2, writers: 0, deadline: "future-zero-future", bound: 3},
 				}
 			}
 			var out []*explore.Scenario
